@@ -109,7 +109,7 @@ def _delegate_ok(repo, cls, meth, fattr):
 
 
 def section(ctx):
-    repo = F.Repo(ctx.REPO)
+    repo = F.shared_repo(ctx.REPO)
     umod = repo.module('replicat.utils')
     for cls in ('TQDMIOBase', 'TQDMIOReader', 'TQDMIOWriter'):
         c = repo.cls('replicat.utils', cls)
